@@ -11,6 +11,35 @@ E2 = "stateless model checking: exhaustive DFS of the choice tree of RNG answers
 E3 = "explicit-state BFS over operation histories of the real object, reference-model comparison in every state"
 
 CHECKS = {
+    "C05": dict(
+        built=True,
+        category="exploration",
+        engine="E1",
+        technique=E1 + " over programs: every CP model of a declared grammar x solver x solution_limit x hints, brute-force oracle on "
+        "the harness's own constraint AST",
+        text="Programs are the quantifier: every model of the grammar (one comparison with both sides ranging over ~40 expression "
+        "shapes, constraint pairs, all_different, sum_eq/le/ge with 1-5 terms and every target, circuit with arbitrary successor "
+        "domains, no_overlap, cumulative incl. >10 candidate literals) is built through the public operators and solved by auto, "
+        "dfs and sat with limits 1/3/10^6 and four kinds of hints; every returned assignment is evaluated and INFEASIBLE is "
+        "compared with emptiness of the brute-force solution set.",
+        note="Trusts: the 60-line evaluator in checks/cplib.py. Bound: <= 5 variables, domain width <= 6. Single-node circuits "
+        "and comparisons of two constants are outside the space.",
+        ref="2/C05",
+    ),
+    "C06": dict(
+        built=True,
+        category="exploration",
+        engine="E1",
+        technique=E1 + " over programs: CNF captured from the real encoder, decided per named-variable assignment by a reference DPLL "
+        "(soundness and completeness of the encoding, exactly-one decoding)",
+        text="For every model of the same program spaces the CNF handed to solve_sat is captured and, for every assignment of the "
+        "named variables, CNF AND enc(a) is decided by a reference DPLL and compared with the harness's evaluation of the CP "
+        "constraints (nothing extra, nothing missing); 'two values' and 'no value' of a named variable must be unsatisfiable. This "
+        "is independent of solvOR's own SAT solver.",
+        note="Trusts: vf/satref.py DPLL (self-checked against truth tables on small CNFs) and reading IntVar.bool_vars. Quick tier "
+        "enumerates rotating complete blocks of the larger spaces.",
+        ref="2/C05",
+    ),
     "C09": dict(
         built=True,
         category="exploration",
